@@ -119,7 +119,8 @@ class DashApp:
         self.instance.mkdir(parents=True, exist_ok=True)
         self.clock = Clock(now)
         self.clock.start()
-        self.propagate = propagate
+        import os
+        self.propagate = propagate or bool(os.environ.get('VERIF_PROPAGATE'))
         self.app = self._create()
         for name in fixtures:
             self.add_fixture(name, with_subs=with_subs)
@@ -150,6 +151,16 @@ class DashApp:
         app = create_app(config=self._config(), instance_path=str(self.instance),
                          create_default_user=False, wss=False)
         self.clock.start()   # patch modules imported by create_app
+        import flask
+        self.exceptions = getattr(self, 'exceptions', [])
+
+        def _on_exc(sender, exception, **extra):
+            import traceback
+            tb = traceback.extract_tb(exception.__traceback__)
+            where = f'{tb[-1].filename.split("/")[-1]}:{tb[-1].lineno}' if tb else ''
+            self.exceptions.append({'type': type(exception).__name__, 'msg': str(exception)[:200], 'where': where})
+        self._on_exc = _on_exc     # keep a strong reference (signals hold weak ones)
+        flask.got_request_exception.connect(_on_exc, app)
         with app.app_context():
             if models.User.get(username=USERS['admin'][0]) is None:
                 for role, (uname, email, pw) in USERS.items():
